@@ -201,3 +201,21 @@ Proof.
          (conj atcf_frozen_clock eig_kappa_frozen_clock))))).
 Qed.
 Print Assumptions C13_frozen_on_the_chain_clock.
+
+(** Sivia-Skilling with a full covariance (the last adaptive class, [AdaptM.ssc_update]): the
+    covariance is rescaled by a factor > 1 when the cumulative acceptance rate is above the target
+    and < 1 when below - the proposal widens (narrows) in EVERY direction, as a quadratic form -
+    and stays positive semidefinite. *)
+Theorem C13_ss_fullcov_direction :
+  forall (p : @ssc R) (n : nat) nsteps (acc : bool),
+  0 < q_target p < 1 ->
+  let nacc := (q_nacc p + (if acc then 1 else 0))%Z in
+  let niter := (nsteps - (q_start p - 1) + 1)%Z in
+  (0 <= nacc <= niter)%Z -> (0 < niter)%Z -> psd n (q_cov p) ->
+  psd n (q_cov (ssc_update p nsteps acc))
+  /\ (q_target p < IZR nacc / IZR niter ->
+      forall w, length w = n -> @quad R _ (q_cov p) w <= @quad R _ (q_cov (ssc_update p nsteps acc)) w)
+  /\ (IZR nacc / IZR niter < q_target p ->
+      forall w, length w = n -> @quad R _ (q_cov (ssc_update p nsteps acc)) w <= @quad R _ (q_cov p) w).
+Proof. exact ssc_direction_psd. Qed.
+Print Assumptions C13_ss_fullcov_direction.
